@@ -240,19 +240,31 @@ func thinTarget(fn *ssa.Function) *ssa.Function {
 			return fn
 		}
 		callee := call.Common().StaticCallee()
-		if callee == nil || callee.Pkg != fn.Pkg || callee.Blocks == nil || len(call.Common().Args) != len(fn.Params) {
+		if callee == nil || callee.Pkg != fn.Pkg || callee.Blocks == nil || len(call.Common().Args) > len(fn.Params) {
 			return fn
 		}
-		for i, a := range call.Common().Args {
+		// the arguments are the wrapper's own parameters, in order (a parameter the body does not need
+		// may be dropped)
+		next := 0
+		for _, a := range call.Common().Args {
 			v := a
 			if u, isU := v.(*ssa.UnOp); isU {
 				// *(&param) for spilled parameters
-				if al, isAl := u.X.(*ssa.Alloc); isAl {
-					_ = al
+				if _, isAl := u.X.(*ssa.Alloc); isAl {
+					next++
 					continue
 				}
 			}
-			if v != ssa.Value(fn.Params[i]) {
+			found := false
+			for next < len(fn.Params) {
+				if v == ssa.Value(fn.Params[next]) {
+					found = true
+					next++
+					break
+				}
+				next++
+			}
+			if !found {
 				return fn
 			}
 		}
